@@ -208,15 +208,13 @@ func FromSlice[T comparable](data []T, comp gogu.CompFn[T]) *Heap[T] {
 
 // Merge joins two heaps into a new one preserving the original ones.
 func (h *Heap[T]) Merge(h2 *Heap[T]) *Heap[T] {
+	h.mu.RLock()
 	newHeap := NewHeap(h.comp)
+	h.mu.RUnlock()
 
-	for i := 0; i < h.size(); i++ {
-		newHeap.Push(h.data[i])
-	}
-
-	for i := 0; i < h2.size(); i++ {
-		newHeap.Push(h2.data[i])
-	}
+	// Each source heap is read under its own lock, one after the other.
+	newHeap.Push(h.GetValues()...)
+	newHeap.Push(h2.GetValues()...)
 
 	return newHeap
 }
@@ -224,19 +222,26 @@ func (h *Heap[T]) Merge(h2 *Heap[T]) *Heap[T] {
 // Meld merge two heaps into a new one containing all the
 // elements of both and destroying the original ones.
 func (h *Heap[T]) Meld(h2 *Heap[T]) *Heap[T] {
+	h.mu.RLock()
 	newHeap := NewHeap(h.comp)
+	h.mu.RUnlock()
 
-	for i := 0; i < h.size(); i++ {
-		newHeap.Push(h.data[i])
-	}
-
-	for i := 0; i < h2.size(); i++ {
-		newHeap.Push(h2.data[i])
-	}
-	h.data = nil
-	h2.data = nil
+	// Each source heap is emptied under its own write lock, one after the other.
+	newHeap.Push(h.takeAll()...)
+	newHeap.Push(h2.takeAll()...)
 
 	return newHeap
+}
+
+// takeAll removes and returns all the elements of the heap.
+func (h *Heap[T]) takeAll() []T {
+	h.mu.Lock()
+	defer h.mu.Unlock()
+
+	values := h.data
+	h.data = nil
+
+	return values
 }
 
 // moveDown moves the element at the position i down to its
